@@ -324,8 +324,12 @@ type Peer struct {
 	// scCount is the number of subchannels that this peer is added to.
 	scCount uint32
 
+	// newConnLock restricts new connection creation attempts to one goroutine.
+	// It is a channel-based lock so that waiters can give up when their context
+	// ends instead of waiting for another caller's connection attempt.
+	newConnLock chan struct{}
+
 	// connections are mutable, and are protected by the mutex.
-	newConnLock         sync.Mutex
 	inboundConnections  []*Connection
 	outboundConnections []*Connection
 	chosenCount         atomic.Uint64
@@ -346,7 +350,22 @@ func newPeer(channel Connectable, hostPort string, onStatusChanged func(*Peer), 
 		hostPort:            hostPort,
 		onStatusChanged:     onStatusChanged,
 		onClosedConnRemoved: onClosedConnRemoved,
+		newConnLock:         make(chan struct{}, 1),
 	}
+}
+
+// lockNewConn acquires newConnLock, unless the context ends first.
+func (p *Peer) lockNewConn(ctx context.Context) error {
+	select {
+	case p.newConnLock <- struct{}{}:
+		return nil
+	case <-ctx.Done():
+		return GetContextError(ctx.Err())
+	}
+}
+
+func (p *Peer) unlockNewConn() {
+	<-p.newConnLock
 }
 
 // HostPort returns the host:port used to connect to this peer.
@@ -405,9 +424,12 @@ func (p *Peer) GetConnection(ctx context.Context) (*Connection, error) {
 		return activeConn, nil
 	}
 
-	// Lock here to restrict new connection creation attempts to one goroutine
-	p.newConnLock.Lock()
-	defer p.newConnLock.Unlock()
+	// Lock here to restrict new connection creation attempts to one goroutine.
+	// Waiting for another caller's connection attempt counts against our deadline.
+	if err := p.lockNewConn(ctx); err != nil {
+		return nil, err
+	}
+	defer p.unlockNewConn()
 
 	// Check active connections again in case someone else got ahead of us.
 	if activeConn, ok := p.getActiveConn(); ok {
@@ -425,15 +447,6 @@ func (p *Peer) getConnectionRelay(callTimeout, relayMaxConnTimeout time.Duration
 		return conn, nil
 	}
 
-	// Lock here to restrict new connection creation attempts to one goroutine
-	p.newConnLock.Lock()
-	defer p.newConnLock.Unlock()
-
-	// Check active connections again in case someone else got ahead of us.
-	if activeConn, ok := p.getActiveConn(); ok {
-		return activeConn, nil
-	}
-
 	// Use the lower timeout value of the call timeout and the relay connection timeout.
 	timeout := callTimeout
 	if timeout > relayMaxConnTimeout && relayMaxConnTimeout > 0 {
@@ -446,6 +459,17 @@ func (p *Peer) getConnectionRelay(callTimeout, relayMaxConnTimeout time.Duration
 	// and don't try to send Hyperbahn traffic on this connection.
 	ctx, cancel := NewContextBuilder(timeout).HideListeningOnOutbound().Build()
 	defer cancel()
+
+	// Lock here to restrict new connection creation attempts to one goroutine.
+	if err := p.lockNewConn(ctx); err != nil {
+		return nil, err
+	}
+	defer p.unlockNewConn()
+
+	// Check active connections again in case someone else got ahead of us.
+	if activeConn, ok := p.getActiveConn(); ok {
+		return activeConn, nil
+	}
 
 	return p.Connect(ctx)
 }
